@@ -148,6 +148,15 @@ pub fn now() -> u64 {
     }
 }
 
+thread_local! { static WORKER: Cell<usize> = const { Cell::new(0) }; }
+/// index of the current harness worker thread (all modes)
+pub fn worker_id() -> usize {
+    WORKER.with(|w| w.get())
+}
+pub fn set_worker_id(t: usize) {
+    WORKER.with(|w| w.set(t));
+}
+
 pub fn set_thread_seed(seed: u64) {
     PRNG.with(|p| p.set(seed | 1));
 }
